@@ -165,10 +165,9 @@ func (r *reconcile) updateGlobalCuntFlowControls() {
 				TokenBucket:         localConfig.GlobalTokenBucket,
 			},
 		}
-		if fcCache.FlowControl() == nil {
-			fcCache.EnableRemoteFlowControl()
-		}
-		remoteFlowControl := fcCache.FlowControl()
+		// a concurrent spec sync can drop the remote flow control at any time:
+		// work on the one that was obtained, never look it up a second time
+		remoteFlowControl := fcCache.EnableRemoteFlowControl()
 		remoteFlowControl.Sync(itemConfig)
 	}
 }
@@ -227,10 +226,7 @@ func (r *reconcile) updateFlowControls(condition *proxyv1alpha1.RateLimitConditi
 				return requestReasonGlobalFlowControlDisable
 			}
 
-			if fcCache.FlowControl() == nil {
-				fcCache.EnableRemoteFlowControl()
-			}
-			remoteFlowControl := fcCache.FlowControl()
+			remoteFlowControl := fcCache.EnableRemoteFlowControl()
 			remoteFlowControl.Sync(config)
 			return requestReasonSuccess
 		}()
@@ -265,7 +261,11 @@ func getRateLimitItemStatus(name string, flowControlCache FlowControlCache) prox
 	}
 
 	flowControlSchemaType := flowControlCache.LocalFlowControl().Type()
-	if rmfc := flowControlCache.FlowControl(); rmfc != nil {
+	rmfc := flowControlCache.FlowControl()
+	if rmfc != nil && !rmfc.Synced() {
+		rmfc = nil
+	}
+	if rmfc != nil {
 		flowControlSchemaType = rmfc.Type()
 	}
 
@@ -275,8 +275,8 @@ func getRateLimitItemStatus(name string, flowControlCache FlowControlCache) prox
 		status.LimitItemDetail.MaxRequestsInflight = &proxyv1alpha1.MaxRequestsInflightFlowControlSchema{
 			Max: int32(math.Round(inflight)),
 		}
-		if remoteFlowControl := flowControlCache.FlowControl(); remoteFlowControl != nil {
-			status.RequestLevel = int32(float64(inflight) / float64(flowControlCache.FlowControl().Config().MaxRequestsInflight.Max) * 100)
+		if rmfc != nil && rmfc.Config().MaxRequestsInflight != nil {
+			status.RequestLevel = int32(float64(inflight) / float64(rmfc.Config().MaxRequestsInflight.Max) * 100)
 		}
 	case proxyv1alpha1.TokenBucket:
 		rate := flowControlCache.Rate()
@@ -285,8 +285,8 @@ func getRateLimitItemStatus(name string, flowControlCache FlowControlCache) prox
 			Burst: int32(math.Round(rate)),
 		}
 		// TODO
-		if remoteFlowControl := flowControlCache.FlowControl(); remoteFlowControl != nil {
-			status.RequestLevel = int32(100 * rate / float64(flowControlCache.FlowControl().Config().TokenBucket.QPS))
+		if rmfc != nil && rmfc.Config().TokenBucket != nil {
+			status.RequestLevel = int32(100 * rate / float64(rmfc.Config().TokenBucket.QPS))
 		}
 	}
 
